@@ -41,13 +41,14 @@ func c10Eval(c c10Case) (ok bool, sig, detail string) {
 	switch c.Op {
 	case "insert-delete", "embed-delete":
 		res := locdom.Seq(L)
+		keys := c03Keys(c03Case{Locs: c.Locs, Keys: c.Keys})
 		var out gts.Sequence
 		if p, msg := engine.Safely(func() {
 			op := "insert"
 			if c.Op == "embed-delete" {
 				op = "embed"
 			}
-			mid := applyInsertOp(op, mkSeq(res, locs, "h"), c.I, mkSeq(guestSeq(c.N), nil, "g"))
+			mid := applyInsertOp(op, mkSeqKeys(res, locs, keys), c.I, mkSeq(guestSeq(c.N), nil, "g"))
 			out = gts.Delete(mid, c.I, c.N)
 		}); p {
 			return false, "panic", "panic: " + msg
@@ -56,9 +57,9 @@ func c10Eval(c c10Case) (ok bool, sig, detail string) {
 			return false, "residues", fmt.Sprintf("residues %q want %q", out.Bytes(), res)
 		}
 		for k, loc := range locs {
-			f, cnt := findOnce(out.Features(), fmt.Sprintf("h%d", k))
+			f, cnt := findOnce(out.Features(), keys[k])
 			if cnt != 1 {
-				return false, "feature-once", fmt.Sprintf("feature h%d present %d times", k, cnt)
+				return false, "feature-once", fmt.Sprintf("feature %s present %d times", keys[k], cnt)
 			}
 			if !propsEqual(f.Props, hostProps(k)) {
 				return false, "feature-props", "qualifiers changed"
@@ -206,6 +207,11 @@ func init() {
 					i := x / 3
 					c := c10Case{Op: op, L: L, Locs: []string{locdom.Encode(loc)}, I: i, N: n}
 					eval(c, locdom.NearEdit(denOf(loc), i, 0))
+					if L <= 4 {
+						c2 := c
+						c2.Keys = []string{"source"}
+						eval(c2, true)
+					}
 					if idx%60013 == 0 && r.WantSample() {
 						r.Sample(c)
 					}
